@@ -48,6 +48,7 @@ OccursAt(h, d, i) == i >= 1 /\ i + Len(d) - 1 <= Len(h) /\ SubSeq(h, i, i + Len(
 DomRel(h, d) ==
   IF d = <<>> THEN "empty"
   ELSE IF IsSuffix(d, h) /\ Len(d) < Len(h) /\ IsIP(h) THEN "ip_suffix"
+  ELSE IF IsSuffix(d, h) /\ \E i \in 2..Len(h) : OccursAt(h, d, i) /\ h[i - 1] = "." THEN "suffix_without_dot_and_inner"
   ELSE IF IsSuffix(d, h) THEN "suffix_without_dot"
   ELSE IF \E i \in 2..Len(h) : OccursAt(h, d, i) /\ h[i - 1] = "." /\ i + Len(d) <= Len(h) /\ h[i + Len(d)] = "."
        THEN "inner_labels"
